@@ -12,10 +12,11 @@ import random
 
 PROPERTY = "C07"
 RULE = (
-    "case kinds: (gram) kernel (20 PD kernels on their documented domain, composed, derivative) x geometry in {random, exact duplicates, "
-    "pairs at 1e-9..1e-3, collinear, tight cluster + far outlier, n=1, large common offset} x lengthscale in {1e-2,1,1e2} x d; (model) exact GP: "
-    "prior/posterior/marginal covariances, prior-posterior PSD, nested-data variance monotonicity, variance floor under raised min_variance, "
-    "fast_pred_var on/off; (svgp) q(f); (noise) likelihood noise floors; distinct = cell without seed; non-trivial iff n >= 2"
+    'case kinds: (gram) kernel (20 PD kernels on their documented domain, composed, derivative) x geometry in {random, exact duplicates, pairs at '
+    '1e-9..1e-3, collinear, tight cluster + far outlier, n=1, large common offset} x lengthscale in {1e-2,1,1e2} x d; (model) exact GP: '
+    'prior/posterior/marginal covariances, prior-posterior PSD, nested-data variance monotonicity, variance floor under raised min_variance, '
+    'fast_pred_var on/off; (svgp) q(f); (noise) likelihood noise floors incl. fantasy likelihoods; (history) covariance invariants along '
+    'C03-style operation histories; distinct = cell without seed; non-trivial iff n >= 2'
 )
 REQUIRED = ["gram_symmetric", "gram_psd", "hook:exact_gp_covariance_psd", "hook:marginal_covariance_psd", "hook:variational_covariance_psd", "prior_minus_posterior_psd", "nested_data_variance_monotone", "variance_floor", "noise_floor"]
 ASSUMPTIONS = ["rounding allowance lambda_min >= -1e-9*lambda_max in float64 (calibrated: worst legitimate case -3.3e-12, cancellation in the quadratic expansion of squared distances)",
